@@ -656,6 +656,32 @@ def run(chk):
     if not okd:
         chk.violation(r_pm, "denominator", "peacemanDenominator(r0, rw, skin) returns %s; the Peaceman denominator is ln(r0 / rw) + skin (rw possibly capped by r0)" % txt, pd[0]["file"], pd[0]["l"])
 
+    # inverse_peaceman(cf, kh, rw, skin) inverts the same relation: r0 = rw exp(2 pi kh / cf - skin)
+    ip = fx.fn1("Opm::RestartIO::RstConnection::inverse_peaceman")
+    from verif import symb as sy_
+    pcf, pkh, prw, psk = (p_["n"] for p_ in ip["params"])
+
+    def leaf_ip(e):
+        if e.get("k") == "Ref" and e.get("d") == "Parm":
+            return sy_.S({pcf: "cf", pkh: "kh", prw: "rw", psk: "skin"}[e["n"]])
+        if e.get("k") == "Flt" and abs(float(e["v"]) - 3.14159265) < 1e-6:
+            return sy_.S("pi")
+        if e.get("k") == "Flt" and abs(float(e["v"]) - 6.2831853) < 1e-6:
+            return sy_.mul(sy_.I(2), sy_.S("pi"))
+        if e.get("k") == "Call" and (e.get("fn") or "").split("::")[-1] == "exp" and e.get("a"):
+            t = ev_ip.term(e["a"][0], env_ip)
+            return sy_.S("exp(%s)" % sy_.show_term(t)) if t is not None else None
+        return None
+    ev_ip = sy_.Eval(leaf_ip, {v["n"] for n in walk(ip["body"]) if n["k"] == "Decl" for v in n["vars"]})
+    env_ip = ev_ip.run([n for n in stmt_list(ip["body"]) if n["k"] != "Return"], {})
+    rets_ip = [r_ for r_ in stmt_list(ip["body"]) if r_["k"] == "Return" and r_.get("e") is not None]
+    got_ip = ev_ip.term(rets_ip[0]["e"], env_ip) if rets_ip else None
+    expo = sy_.add(sy_.div(sy_.mul(sy_.I(2), sy_.S("pi"), sy_.S("kh")), sy_.S("cf")), sy_.mul(sy_.I(-1), sy_.S("skin")))
+    want_ip = sy_.mul(sy_.S("rw"), sy_.S("exp(%s)" % sy_.show_term(expo)))
+    chk.instance(r_pm, "inverse", sample=dict(returns=sy_.show_term(got_ip)))
+    if got_ip != want_ip:
+        chk.violation(r_pm, "inverse", "inverse_peaceman(cf, kh, rw, skin) returns %s; solving cf (ln(r0/rw) + skin) = 2 pi kh for r0 gives %s: the r0 stored for connections with explicit CF and Kh no longer satisfies the relation" % (sy_.show_term(got_ip), sy_.show_term(want_ip)), ip["file"], ip["l"])
+
     # ---- C06.zero: the record's one-based cell numbers
     r_zr = chk.rule("C06.zero", "COMPDAT: I, J, K1, K2 are one-based in the record and zero-based in the connection: each is the item's integer minus 1 (I and J fall back to the well head when defaulted or 0), and the connections are created for every layer k = K1 .. K2 inclusive", floor=5)
     lc = fx.fn1("Opm::WellConnections::loadCOMPDAT")
